@@ -62,6 +62,7 @@ type Contract struct {
 	Sequential bool // obligation: no go statement in the function
 	HoldsLock  bool // obligation: no Unlock call outside defer
 	ChanState  bool // obligations: no send on / close of a closed channel, over ghost(closed, ch)
+	Criticals  [][2]string // critical A .. B: no mutex release on a path from the call of A to the call of B
 	RecvNonNil bool
 	Params     []string // optional explicit parameter names (for externals)
 	Results    []string
@@ -277,6 +278,16 @@ func ParseSpecFile(path string, pkgName string) (*SpecFile, error) {
 		case "sequential":
 			// the function starts no goroutine (what it calls runs before it continues)
 			cur.Sequential = true
+		case "critical":
+			// critical A .. B: between the (single) call of A and the (single) call of B
+			// the function releases no mutex (outside defers): both run in one
+			// critical section
+			parts := strings.Split(rest, "..")
+			if len(parts) != 2 {
+				errs = append(errs, fmt.Sprintf("%s:%d: critical <callee> .. <callee>", path, ln))
+			} else {
+				cur.Criticals = append(cur.Criticals, [2]string{strings.TrimSpace(parts[0]), strings.TrimSpace(parts[1])})
+			}
 		case "chanstate":
 			// sends and closes in this function are checked against ghost(closed, ch):
 			// a send or a close needs closed == 0, a close sets it to 1
